@@ -9,7 +9,7 @@ pub struct Exit {
 
 /// fork; run `f` in the child (which then `_exit`s); wait for it in the parent.
 /// `secs` = alarm deadline for the child (SIGALRM = hang).
-pub fn run(secs: u32, f: impl FnOnce()) -> Exit {
+pub fn run(secs: u32, f: impl Fn()) -> Exit {
     unsafe {
         let pid = libc::fork();
         assert!(pid >= 0, "fork failed");
@@ -47,12 +47,18 @@ pub fn run(secs: u32, f: impl FnOnce()) -> Exit {
 /// wait for its alarm again): they are reported as not run, the hung ones are the finding.
 pub static HANGS: std::sync::atomic::AtomicUsize = std::sync::atomic::AtomicUsize::new(0);
 
-pub fn run_logged(secs: u32, f: impl FnOnce()) -> Exit {
+pub fn run_logged(secs: u32, f: impl Fn()) -> Exit {
     if HANGS.load(std::sync::atomic::Ordering::SeqCst) >= 3 {
         emit(json!({"ev":"Note","what":"not-run","why":"three earlier scenarios hung"}));
         return Exit { code: 0, signal: 0 };
     }
-    let e = run(secs, f);
+    let mut e = run(secs, &f);
+    if e.signal == libc::SIGALRM {
+        // a scenario that takes milliseconds ran into its alarm: before that counts as a hang of the library it has to happen
+        // again, with twice the time (a starved machine must not produce a finding); the second run's events follow the first's
+        emit(json!({"ev":"Note","what":"retry-after-alarm","secs":secs}));
+        e = run(secs * 2, &f);
+    }
     if e.signal == libc::SIGALRM {
         HANGS.fetch_add(1, std::sync::atomic::Ordering::SeqCst);
     }
